@@ -14,6 +14,7 @@ OBLIGATIONS = [
     (P + "no_crash_scgi", "SCGI: for all byte streams and segmentations no out-of-range index, no negative/huge resize, no strlen past the buffer"),
     (P + "no_crash_fcgi", "FastCGI: likewise (cache never read into when full, front() only on non-empty vectors, unknown-role body large enough, negative CONTENT_LENGTH never reaches resize); model recursion budgets suffice"),
     (P + "no_crash_http", "HTTP: likewise; header_.resize(size()-2) and bracket_counter_-- never wrap (parser invariant), with or without the 16 KiB cap firing"),
+    (P + "pool_no_overflow", "string_pool page bookkeeping (page size, allocate_space conditions, which block clear() keeps: regenerated from private/string_map.h): for every sequence of allocations and clear()s no allocation is handed bytes outside its malloc block (D18 is the false case)"),
     (P + "parser_invariant", "the parser invariant is kept by every non-returning step of the generated transition"),
 ]
 OBLIGATIONS_FILE = os.path.join(HERE, "c02_obligations.json")
